@@ -5,6 +5,7 @@ import sys
 from pathlib import Path
 
 SRC = Path(sys.argv[1] if len(sys.argv) > 1 else "/tmp/mutout")
+ROUND = sys.argv[2] if len(sys.argv) > 2 else "r1"
 DST = Path(__file__).resolve().parent.parent / "seeded"
 for d in sorted(SRC.glob("C*/m*")):
     rj, tj = d / "result.json", d / "tests.json"
@@ -15,10 +16,11 @@ for d in sorted(SRC.glob("C*/m*")):
     meta = json.loads((d / "meta.json").read_text())
     sup = (d / "superseded.txt").read_text().strip() if (d / "superseded.txt").exists() else None
     confirmed = res.get("demo_with_change") == 1 and res.get("demo_without_change") == 0 and tests.get("tests_rc", 0) == 0
+    meta["round"] = ROUND
     if not confirmed and not sup:
         print("not kept:", d, res.get("demo_with_change"), res.get("demo_without_change"), tests)
         continue
-    out = DST / f"{d.parent.name}-{d.name}"
+    out = DST / f"{d.parent.name}-{ROUND}-{d.name}"
     out.mkdir(parents=True, exist_ok=True)
     shutil.copy(d / "patch.diff", out / "patch.diff")
     shutil.copy(d / "demo.py", out / "demo.py")
